@@ -49,6 +49,20 @@ pub enum PendK {
     Issue,  // token issuance by a token manager (address index)
 }
 
+/// the same text with the case of its letters changed (all of them, or only the first)
+pub fn flip_case(b: &[u8], first_only: bool) -> Vec<u8> {
+    let mut out = b.to_vec();
+    for c in out.iter_mut() {
+        if c.is_ascii_alphabetic() {
+            *c ^= 0x20;
+            if first_only {
+                break;
+            }
+        }
+    }
+    out
+}
+
 /// decimal text of a big-endian number
 pub fn num_dec(be: &[u8]) -> String {
     multiversx_sc_scenario::num_bigint::BigUint::from_bytes_be(be).to_string()
@@ -403,7 +417,7 @@ fn step(rng: &mut Rng, sink: &mut Sink, w: &mut World, focus: &str) {
                 inbound_random(rng, sink, w, &caller, kind);
             } else {
                 let (mut tid, _tok, _k) = rng.pick(&known).clone();
-                let fault = if rng.chance(1, 2) { 0 } else { rng.range(1, 22) };
+                let fault = if rng.chance(1, 2) { 0 } else { rng.range(1, 24) };
                 let mut dest = user(rng.below(6) as u8);
                 let mut amount = *rng.pick(&[1u128, 5, 10, 100]);
                 let dl = rng_len(rng);
@@ -487,6 +501,13 @@ fn step(rng: &mut Rng, sink: &mut Sink, w: &mut World, focus: &str) {
                         // approved and executed under the wrong (untrusted) source address
                         exec_src = b"0xEvil".to_vec();
                         w.approve(rng, sink, &chain, b"0xEvil", &payload, None)
+                    }
+                    22 | 23 => {
+                        // a look-alike of the trusted peer: the same address in another letter case (a different account
+                        // on chains with case-sensitive addresses), approved by the gateway under that spelling
+                        let alike = flip_case(&src, fault == 23);
+                        exec_src = alike.clone();
+                        w.approve(rng, sink, &chain, &alike, &payload, None)
                     }
                     _ => w.approve(rng, sink, &chain, &src, &payload, None),
                 };
@@ -681,7 +702,9 @@ fn step(rng: &mut Rng, sink: &mut Sink, w: &mut World, focus: &str) {
                 }
                 3 => {
                     let (ch, ad) = rng
-                        .pick(&[(ETH.to_vec(), ETH_ITS.to_vec()), (HUB.to_vec(), HUB_ITS.to_vec()), (AVA.to_vec(), b"hub".to_vec()), (ETH.to_vec(), b"hub".to_vec()), (b"nowhere".to_vec(), b"0xN".to_vec()), (vec![], b"x".to_vec())])
+                        .pick(&[(ETH.to_vec(), ETH_ITS.to_vec()), (HUB.to_vec(), HUB_ITS.to_vec()), (AVA.to_vec(), b"hub".to_vec()), (ETH.to_vec(), b"hub".to_vec()), (b"nowhere".to_vec(), b"0xN".to_vec()), (vec![], b"x".to_vec()),
+                            // direct peers whose address merely begins with / contains the routing marker, or is the marker in another case
+                            (b"polygon".to_vec(), b"hub1qxyzdirectpeer".to_vec()), (ETH.to_vec(), b"hubble".to_vec()), (AVA.to_vec(), b"HUB".to_vec()), (b"polygon".to_vec(), b"xhub".to_vec()), (AVA.to_vec(), b"hu".to_vec())])
                         .clone();
                     w.tx(sink, &c, "setTrustedAddress", 0, "-", &[ch, ad]);
                 }
@@ -883,6 +906,23 @@ fn step(rng: &mut Rng, sink: &mut Sink, w: &mut World, focus: &str) {
                         // the third transaction of the flow (mint + hand-over) and one more attempt
                         let out = w.tx(sink, &d, "deployInterchainToken", 0, "-", &a);
                         w.track(&out, PendK::Issue);
+                    }
+                }
+                0 if rng.chance(1, 3) => {
+                    // identifiers of the extreme lengths (3- and 10-character tickers) and siblings that differ only in
+                    // their last character: every one has an id of its own and gets a manager of its own
+                    let fam = rng.pick(&[["ABCDEFGHIJ-12345a", "ABCDEFGHIJ-12345b"], ["ABC-12345a", "ABC-12345b"], ["ABCDEFGHIJ-00000f", "ABCDEFGHI-00000f"]]).clone();
+                    for t in fam.iter() {
+                        w.query(sink, "canonicalInterchainTokenId", &[t.as_bytes().to_vec()]);
+                        w.query(sink, "canonicalInterchainTokenDeploySalt", &[t.as_bytes().to_vec()]);
+                    }
+                    for t in fam.iter() {
+                        let out = w.tx(sink, &caller, "registerCanonicalInterchainToken", 0, "-", &[t.as_bytes().to_vec()]);
+                        w.track(&out, PendK::Exec);
+                        if let Some(tid) = result_bytes(&out) {
+                            w.query(sink, "registeredTokenIdentifier", &[tid.clone()]);
+                            w.query(sink, "deployedTokenManager", &[tid]);
+                        }
                     }
                 }
                 0 => {
